@@ -76,6 +76,36 @@ Theorem C05s_fast_nonMarkov_SIS_any_initial_condition : forall dur delays tmax t
     ic_sisb (gnodes g) i0 tmin (so_rows out) (so_full out) = true.
 Proof. exact (nmsis_starts_as_requested_any g Hadj). Qed.
 
+(* the user-facing argument forms (Model/InitChkSIS.v): initial_infecteds = None, a single
+   node of the graph, or any collection (by its element list) -- a single node and the
+   one-element collection start the same run, both pass the checker for [x] *)
+Theorem C05s_fast_SIS_every_argument_form : forall tau gamma tmax tmin a rho full fuel ds out tr,
+  NoDup (gnodes g) -> xlt tmin tmax = true ->
+  (forall l, arg_nodes a = Some l -> NoDup l /\ incl l (gnodes g)) ->
+  exec (fast_SIS_arg g tau gamma tmax a rho tmin full fuel) ds [] = (Ok out, tr) ->
+  exists i0, NoDup i0 /\ incl i0 (gnodes g) /\
+    match arg_nodes a with
+    | Some l => i0 = l /\ rho = None
+    | None => Z.of_nat (length i0) = requested g rho /\ (0 <= requested g rho <= order g)%Z /\
+              ic_sis_rhob (gnodes g) rho tmin (so_rows out) (so_full out) = true
+    end /\
+    ic_sisb (gnodes g) i0 tmin (so_rows out) (so_full out) = true.
+Proof. exact (fsis_arg_starts_as_requested g Hadj). Qed.
+
+Theorem C05s_fast_nonMarkov_SIS_every_argument_form : forall dur delays tmax tmin a rho full fuel ds out tr,
+  NoDup (gnodes g) -> xlt tmin tmax = true -> rules_ok dur delays ->
+  (forall l, arg_nodes a = Some l -> NoDup l /\ incl l (gnodes g)) ->
+  exec (fast_nonMarkov_SIS_arg g dur delays tmax a rho tmin full fuel) ds [] = (Ok out, tr) ->
+  exists i0, NoDup i0 /\ incl i0 (gnodes g) /\
+    match arg_nodes a with
+    | Some l => i0 = l /\ rho = None /\ tr = []
+    | None => Z.of_nat (length i0) = requested g rho /\ (0 <= requested g rho <= order g)%Z /\
+              ic_sis_rhob (gnodes g) rho tmin (so_rows out) (so_full out) = true /\
+              tr = [CSample (map knode (gnodes g)) (Z.to_nat (requested g rho))]
+    end /\
+    ic_sisb (gnodes g) i0 tmin (so_rows out) (so_full out) = true.
+Proof. exact (nmsis_arg_starts_as_requested g Hadj). Qed.
+
 End C05s.
 
 (* what the checker says, clause by clause *)
@@ -230,6 +260,8 @@ Print Assumptions C05s_fast_SIS_starts_as_requested.
 Print Assumptions C05s_fast_SIS_any_initial_condition.
 Print Assumptions C05s_fast_nonMarkov_SIS_starts_as_requested.
 Print Assumptions C05s_fast_nonMarkov_SIS_any_initial_condition.
+Print Assumptions C05s_fast_SIS_every_argument_form.
+Print Assumptions C05s_fast_nonMarkov_SIS_every_argument_form.
 Print Assumptions C05s_ic_sisb_sound.
 Print Assumptions C05s_statuses_at_tmin_are_the_request.
 Print Assumptions C05s_rho_conflict_rejected.
